@@ -106,18 +106,31 @@ func runC06(b *fw.B) {
 		}
 	}
 	sampled := false
-	for si, n := range sizes {
-		if si%16 != b.Batch {
-			continue
-		}
-		for _, rounds := range roundsSet {
-			if n > 5000 && rounds != 10 && rounds != 90 && rounds != 255 {
+	// Loop order: one seed is used for all sizes and round counts of the batch before the next seed comes, so that consecutive cases
+	// share the seed and differ in size or rounds (anything remembered per seed across calls would answer for the wrong size).
+	type c06case struct {
+		n      uint64
+		rounds int
+		sIdx   int
+	}
+	var cases []c06case
+	for sIdx := range seeds {
+		for si, n := range sizes {
+			if si%16 != b.Batch {
 				continue
 			}
-			for sIdx, seed := range seeds {
-				if n > 5000 && sIdx > 0 {
+			for _, rounds := range roundsSet {
+				if n > 5000 && (rounds != 10 && rounds != 90 && rounds != 255 || sIdx > 0) {
 					continue
 				}
+				cases = append(cases, c06case{n, rounds, sIdx})
+			}
+		}
+	}
+	for _, cs := range cases {
+		{
+			{
+				n, rounds, seed := cs.n, cs.rounds, seeds[cs.sIdx]
 				b.Case("shuffle", fmt.Sprintf("n=%d rounds=%d seed=%x", n, rounds, seed[:8]))
 				if n >= 2 && rounds >= 1 {
 					b.Nontrivial(n, rounds, seed[:])
